@@ -372,7 +372,8 @@ def strategy(max_ops):
     from hypothesis import strategies as st
 
     plans = T.plan_strategy(max_nodes=4, max_depth=3, fns=["fc", "fc", "fb", "fa"], raising=False)
-    gnode = T.plan_strategy(max_nodes=4, max_depth=3, fns=["fc", "fc", "fb"], raising=False).map(lambda r: r[0])
+    gnode = st.tuples(T.plan_strategy(max_nodes=4, max_depth=3, fns=["fc", "fc", "fb"], raising=False), st.booleans()
+                      ).map(lambda t: dict(t[0][0], swallow=t[1]))  # swallow: absorbs GeneratorExit at a yield
     ov = st.tuples(st.just("ov"), st.sampled_from([0, 0, 4, 4, 1, 2, 3]))
     nxt = st.tuples(st.just("next"), st.integers(0, 2))
     call = st.tuples(st.just("call"), plans)
